@@ -1,12 +1,12 @@
 package vc
 
 import (
-	"go/ast"
-	"os"
-	"sort"
 	"fmt"
+	"go/ast"
 	"go/token"
 	"go/types"
+	"os"
+	"sort"
 	"strings"
 
 	"golang.org/x/tools/go/ssa"
@@ -258,8 +258,28 @@ func (ex *Exec) havocLoop(st *State, fr *Frame, li *loopInfo) {
 			st.ghost[n] = ex.fresh(n, g.Sort)
 		}
 	}
+	// channel events (sends, closes) inside the loop: their number is no longer known to the contract
+	// builtins chansends() / chansent() / chancloses()
+	for b := range li.body {
+		if ex.hasChanEvents(b.Instrs, map[*ssa.Function]bool{}) {
+			st.ghost["$chanEventsUnknown"] = True
+			break
+		}
+	}
 	// local cells
+	// (fixed orders below: fresh names are numbered in the order they are made, and the queries of two runs
+	// on the same tree should be the same text)
+	var allocList []*ssa.Alloc
 	for a := range modAllocs {
+		allocList = append(allocList, a)
+	}
+	sort.Slice(allocList, func(i, j int) bool {
+		if allocList[i].Pos() != allocList[j].Pos() {
+			return allocList[i].Pos() < allocList[j].Pos()
+		}
+		return allocList[i].Name() < allocList[j].Name()
+	})
+	for _, a := range allocList {
 		if li.body[a.Block()] {
 			continue // allocated inside the loop: fresh per iteration
 		}
@@ -277,13 +297,24 @@ func (ex *Exec) havocLoop(st *State, fr *Frame, li *loopInfo) {
 		}
 		st.mem[p.Obj] = ex.havocValue(st, p.Obj.T, st.mem[p.Obj], name)
 	}
+	var freeList []*ssa.FreeVar
 	for fv := range modFree {
+		freeList = append(freeList, fv)
+	}
+	sort.Slice(freeList, func(i, j int) bool { return freeList[i].Name() < freeList[j].Name() })
+	for _, fv := range freeList {
 		if p, ok := fr.regs[fv].(*VPtr); ok && p.Obj != nil {
 			st.mem[p.Obj] = ex.havocValue(st, p.Obj.T, st.mem[p.Obj], fv.Name())
 		}
 	}
 	if otherStore {
-		for obj, v := range st.mem {
+		var objList []*Object
+		for obj := range st.mem {
+			objList = append(objList, obj)
+		}
+		sort.Slice(objList, func(i, j int) bool { return objList[i].ID < objList[j].ID })
+		for _, obj := range objList {
+			v := st.mem[obj]
 			// objects of library struct types (the internals of a net.UDPConn ...) cannot be written by a store
 			// in the module's code; library calls on them are modelled by their contracts
 			if n, ok := obj.T.(*types.Named); ok && n.Obj().Pkg() != nil && !ex.inModule(n.Obj().Pkg()) {
@@ -320,7 +351,8 @@ func (ex *Exec) havocLoop(st *State, fr *Frame, li *loopInfo) {
 	if heapWrite {
 		refs := append([]*Term(nil), st.freshRefs...)
 		refs = append(refs, ex.modifiesRefs(st)...)
-		for key, h := range st.heaps {
+		for _, key := range sortedKeys(st.heaps) {
+			h := st.heaps[key]
 			nh := h
 			for _, r := range refs {
 				nh = Store(nh, r, ex.fresh("row", h.Sort.Elem()))
@@ -1060,7 +1092,8 @@ func shortName(n string) string {
 func (ex *Exec) havocReachable(st *State, v Value) {
 	switch x := v.(type) {
 	case *VSlice:
-		for key, h := range st.heaps {
+		for _, key := range sortedKeys(st.heaps) {
+			h := st.heaps[key]
 			if strings.HasPrefix(key, "H") {
 				st.heaps[key] = Store(h, x.Ref, ex.fresh("row", h.Sort.Elem()))
 			}
@@ -1080,7 +1113,8 @@ func (ex *Exec) havocReachable(st *State, v Value) {
 			ex.havocReachable(st, a.Val)
 		}
 	case *VMap:
-		for key, h := range st.heaps {
+		for _, key := range sortedKeys(st.heaps) {
+			h := st.heaps[key]
 			if strings.HasPrefix(key, "M["+typeKey(x.T)+"]") {
 				if h.Sort == SArr {
 					st.heaps[key] = Store(h, x.Ref, ex.fresh("maplen", SInt))
@@ -1149,6 +1183,12 @@ func (ex *Exec) callBuiltin(st *State, fr *Frame, instr ssa.Instruction, c *ssa.
 	case "append":
 		return ex.builtinAppend(st, instr, args[0].(*VSlice), args[1])
 	case "close":
+		// ghost event: one more channel closed
+		n := int64(0)
+		if g, ok := st.ghost["$closes"].(*Term); ok {
+			n, _ = g.Int64()
+		}
+		st.ghost["$closes"] = IntLit(n + 1)
 		return &VTuple{}
 	case "print", "println":
 		return &VTuple{}
@@ -1521,4 +1561,49 @@ func (ex *Exec) isZeroValue(st *State, v, z Value) *Term {
 		}
 	}
 	return False // not comparable: the obligation fails
+}
+
+// hasChanEvents: the instructions (and the module functions they execute in place) send on or close a channel.
+func (ex *Exec) hasChanEvents(instrs []ssa.Instruction, seen map[*ssa.Function]bool) bool {
+	for _, in := range instrs {
+		switch x := in.(type) {
+		case *ssa.Send:
+			return true
+		case *ssa.Select:
+			for _, s := range x.States {
+				if s.Dir == types.SendOnly {
+					return true
+				}
+			}
+		case ssa.CallInstruction:
+			c := x.Common()
+			if b, ok := c.Value.(*ssa.Builtin); ok && b.Name() == "close" {
+				return true
+			}
+			var callee *ssa.Function
+			switch v := c.Value.(type) {
+			case *ssa.Function:
+				callee = v
+			case *ssa.MakeClosure:
+				callee, _ = v.Fn.(*ssa.Function)
+			}
+			if callee == nil || seen[callee] || callee.Blocks == nil {
+				continue
+			}
+			seen[callee] = true
+			key := ex.FuncKey(callee)
+			if !strings.HasPrefix(key, ex.ModulePath) {
+				continue
+			}
+			if ct, ok := ex.Contracts[key]; ok && !ct.hasAttr("inline") {
+				continue // modular call: a contract does not describe channel events of its callee
+			}
+			for _, b := range callee.Blocks {
+				if ex.hasChanEvents(b.Instrs, seen) {
+					return true
+				}
+			}
+		}
+	}
+	return false
 }
